@@ -186,6 +186,8 @@ def jobs(tier):
     for n, inp in ((2, ['F0.txtpp', 'F1.txtpp']), (3, ['.']), (3, ['F0.txtpp', 'F2.txtpp'])):
         js.append({'name': 'workers outliving a failed run n=%d' % n, 'harness': (H, 'h_workers'), 'params': {'n': n, 'inputs': inp, 'fail_budget': 1},
                    'split': 16 if n >= 3 else 1})
+    from . import project
+    js += project.jobs('C18', tier)
     return js
 
 
